@@ -310,7 +310,9 @@ type FakeBackend struct {
 	Faults  bool // every operation may fail
 	Crashes bool // every mutating operation is a crash point (panic(CrashSignal))
 	NoFault map[string]bool
-	Steps   int
+	// FaultPaths, when non-nil, restricts injected failures to operations on these paths
+	FaultPaths map[string]bool
+	Steps      int
 }
 
 func NewFakeBackend() *FakeBackend { return &FakeBackend{Files: map[string][]byte{}, NoFault: map[string]bool{}} }
@@ -321,7 +323,7 @@ func (f *FakeBackend) step(op, path string, mutating bool) error {
 	if mutating && f.Crashes && Choice("crash-before-"+op, 2) == 1 {
 		panic(CrashSignal{At: op + " " + path})
 	}
-	if f.Faults && !f.NoFault[op] && Choice("fault-"+op, 2) == 1 {
+	if f.Faults && !f.NoFault[op] && (f.FaultPaths == nil || f.FaultPaths[path]) && Choice("fault-"+op, 2) == 1 {
 		return fmt.Errorf("fake backend: injected %s failure", op)
 	}
 	return nil
